@@ -330,6 +330,7 @@ def _bare(cls, name):
     """a real instance carrying only what Powertrain.__init__ reads (no constructor: its data are irrelevant here)"""
     C = G.classes()[cls]
     o = object.__new__(C)
+    o.__dict__["_pycv_bypassed_ctor"] = True      # see harness.call: a missing private attribute is then a harness limit
     o.__dict__["_MechanicalObject__name"] = name
     o.__dict__[f"{owner(cls)}__drives"] = None
     if cls == "WormGear":
